@@ -200,6 +200,9 @@ type Sink struct {
 	// FailMode selects what the failing Write reports: 0 -> (0, err), 1 -> (len(p), err)
 	// (consumed everything, then failed), 2 -> (len(p)/2, err)
 	FailMode int
+	// FailOnce: only the FailAt-th call fails (a timeout, say); the sink accepts later calls again.
+	// A writer whose error sticks never makes one.
+	FailOnce bool
 	Yield    bool
 }
 
@@ -208,7 +211,7 @@ func (s *Sink) Write(p []byte) (int, error) {
 	if s.Yield {
 		runtime.Gosched()
 	}
-	if s.FailAt > 0 && s.Calls >= s.FailAt {
+	if s.FailAt > 0 && (s.Calls == s.FailAt || s.Calls > s.FailAt && !s.FailOnce) {
 		e := s.Err
 		if e == nil {
 			e = ErrCustom
